@@ -14,7 +14,7 @@ func Props() []core.PropSpec {
 		{ID: "C09", Rules: []string{"M1", "M2", "L2"},
 			Explanation: "Decides that nothing outside the cache key flows into a cached compilation, that batch-loaded code is associated with its type positionally or by an injective key, and that the cache compares keys by type-pointer identity. That two compilations of one type are observationally equal (inline depth etc.) is NOT decided.",
 			Assumptions: []string{"compile options (inline/recursion depth) do not change codec semantics"}},
-		{ID: "C06", Rules: []string{"O1", "O2", "O3"},
+		{ID: "C06", Rules: []string{"O1", "O2", "O3", "A1"},
 			Explanation: "Decides pool typestate (no use after put, no pooled memory escaping to the caller) path-sensitively over go/cfg, and the copy-before-retain instances. That natives honour the capacity they are told, and byte-identity of output across capacities, are NOT decided.",
 			Assumptions: []string{"alias summaries of append/HTMLEscape/CorrectWith/Quote: result aliases the first argument"}},
 		{ID: "C15", Rules: []string{"S5", "S8", "S9", "R1"},
